@@ -151,6 +151,9 @@ extern int cs_vector_on_cal;
 /* where not 0: cs_build sets both convergence tolerances of the iterative
    solver to this */
 extern double cs_solve_tolerance;
+/* where not 0: every reading of the simulated instrument (standards and
+   devices alike) is multiplied by this */
+extern double cs_receiver_gain;
 extern int cs_param_fillers;
 /* scalar standards of the recipes are purely real (a 75 ohm load, an
    attenuator): set before cs_recipe */
